@@ -197,6 +197,32 @@ def run(ck):
     expected = expected_direct(ck.runner, bare, contexts)
     for fe in ('numpy', 'netcdf', 'pandas', 'xarray'):
         compare_run(ck, fe, 'no-aux-axes', bare, contexts, run_frontend(ck.runner, fe, bare, src), expected)
+    # some of the auxiliary columns only (a surface track without depth; a profile without positions): each test gets exactly the inputs that exist
+    for axes, tests in ((('time', 'lat', 'lon'), {'a': ['gross', 'loc', 'speed', 'clim'], 'b': ['roc']}),
+                        (('time', 'z'), {'a': ['dens', 'clim', 'loc'], 'b': ['flat']}),
+                        (('lat', 'lon'), {'a': ['loc', 'gross', 'speed']}),
+                        (('time', 'z', 'lat'), {'a': ['loc', 'dens', 'roc']})):
+        part = Table(5, missing={'a': {2}}, with_axes=axes)
+        for window in ((None, None), (t(1), t(4))):
+            if window != (None, None) and 'time' not in axes:
+                continue
+            cs = [dict(window=window, tests=tests)]
+            src = make_config_source(cs)
+            expected = expected_direct(ck.runner, part, cs)
+            for fe in ('numpy', 'netcdf', 'pandas', 'xarray'):
+                compare_run(ck, fe, f'axes={"+".join(axes)}{"" if window == (None, None) else "/window"}', part, cs, run_frontend(ck.runner, fe, part, src), expected)
+    # a bound written out as absent (`ending: null` in YAML, None in a mapping) is an open bound, like a bound left out
+    full = Table(5, missing={'a': {2}})
+    for name, window in (('starting-only', (t(2), None)), ('ending-only', (None, t(3))), ('both-null', (None, None))):
+        cs = [dict(window=window, tests={'a': ['gross', 'spike'], 'b': ['roc']})]
+        src = make_config_source(cs)
+        for c in src['contexts']:
+            w = c.setdefault('window', {})
+            for k in ('starting', 'ending'):
+                w.setdefault(k, None)
+        expected = expected_direct(ck.runner, full, cs)
+        for fe in ('numpy', 'netcdf', 'pandas', 'xarray'):
+            compare_run(ck, fe, f'explicit-null-bound/{name}', full, cs, run_frontend(ck.runner, fe, full, src), expected)
     # no time axis at all: windows cannot be applied (the streams warn and skip the subset), time-dependent tests drop out
     notime = Table(5, missing={'a': {2}}, with_axes=())
     for cs in ([dict(window=(None, None), tests={'a': ['gross', 'spike', 'roc'], 'b': ['valid']})],):
